@@ -8,7 +8,7 @@ from vlib.framework import Corr
 from harness import iolib as IO
 
 META = {
-    "drivers": ["iocheck"],
+    "drivers": ["iocheck", "impcheck"],
     "rule": "case = (stack, content digest, fault, build config) with fault = truncation offset | (word offset, replacement) | "
             "(writer stack, reader stack) | (failure mode, n-th read); every fault case is non-trivial",
     "trusted_base": ["fault-injecting streambuf (harness/cpp/io_lib.hpp FaultBuf): overrides xsgetn/underflow/uflow; istream::read reaches "
@@ -364,13 +364,29 @@ def vg_run(ctx, corr, impl, infos, files, ops):
 
 
 def run(ctx):
-    stacks, files, aseed = gen(ctx)
+    # the tie through translation (DESIGN.md §11.6): the header / footer functions and read_binary of utility/binary_io.hpp as
+    # written are the scripts the theorems `Covfie.IO.read_io_*_translated` are about (and every layer's reader is the script C06
+    # checks); if any of that text changed, the thorough tier's stacks and alterations run
+    from harness import translib as T
+    tie = T.Tie(ctx, list(T.BIN) + list(T.IOL))
+    if tie.changed() and ctx.quick:
+        class Deep:
+            quick, seed, tier, work, replay, prop = False, ctx.seed, ctx.tier, ctx.work, ctx.replay, ctx.prop
+        stacks, files, aseed = gen(Deep)
+    else:
+        stacks, files, aseed = gen(ctx)
     corpus = load_corpus()
     seen = {json.dumps(s) for s in stacks}
     for c in corpus:
         if json.dumps(c["stack"]) not in seen:
             seen.add(json.dumps(c["stack"])); stacks.append(c["stack"])
-    return evaluate(ctx, stacks, files, aseed, ["dbg", "rel"], corpus=corpus, valgrind=not ctx.quick)
+    corr = evaluate(ctx, stacks, files, aseed, ["dbg", "rel"], corpus=corpus, valgrind=not ctx.quick)
+    for name, o in tie.scratch.obl.items():          # C08 lists the binary_io kernels; the layer scripts are C06's obligations
+        if name[len("translated_"):] in T.BIN:
+            corr.add_obl(name, o["cases"], o["disagreements"], o["note"])
+    corr.notes += tie.scratch.notes
+    corr.info.update(tie.scratch.info)
+    return corr
 
 
 def replay(ctx):
